@@ -116,7 +116,7 @@ theorem iterRemove_sim (a : Arr) (it : ArrIter) (c : Cursor) (m : Mem) (hinv : a
         rw [r1]; unfold Spec.Seq.removeAt; simp [hw]
       have hout : (a.removeAt (wdec it.index) m).2.1 = none := by
         rw [r2]; unfold Spec.Seq.removeAt; simp [hw]
-      simp only [hnok, if_false, hd, if_true, hst, hout, r7 hnok, r6]
+      simp only [hd, if_true, hst, hout, r7 hnok, r6]
       exact ⟨by triv, by triv, ⟨s1, s2, s3⟩, Kept.refl a, Nat.le_refl _, by triv, fun _ => ⟨by triv, by triv⟩⟩
     · obtain ⟨d', y, hdy⟩ := last_split c.done hd
       have hidx : it.index = d'.length + 1 := by rw [← s2, hdy]; simp
@@ -213,7 +213,7 @@ theorem removeAt_split (a : Arr) (d' t : List Nat) (y : Nat) (m : Mem) (hinv : a
     (a.removeAt d'.length m).2.2.1.abs = d' ++ t ∧ Kept a (a.removeAt d'.length m).2.2.1 ∧
     (a.removeAt d'.length m).2.2.1.size ≤ a.size ∧ (a.removeAt d'.length m).2.2.2 = m := by
   obtain ⟨r1, r2, r3, r4, r5, r6, r7, r8, r9⟩ := removeAt_spec a d'.length m hinv
-  have hlt : d'.length < a.abs.length := by rw [habs]; simp; omega
+  have hlt : d'.length < a.abs.length := by rw [habs]; simp <;> omega
   unfold Spec.Seq.removeAt at r2 r3
   simp only [hlt, if_true] at r2 r3
   refine ⟨r8.2 (by simpa using hlt), ?_, ?_, r4, r5, r6⟩
@@ -226,7 +226,7 @@ theorem replaceAt_split (a : Arr) (d' t : List Nat) (y x : Nat) (m : Mem) (hinv 
     (a.replaceAt x d'.length m).2.2.1.abs = (d' ++ [x]) ++ t ∧ Kept a (a.replaceAt x d'.length m).2.2.1 ∧
     (a.replaceAt x d'.length m).2.2.1.size = a.size ∧ (a.replaceAt x d'.length m).2.2.2 = m := by
   obtain ⟨r1, r2, r3, r4, r5, r6, r7, r8⟩ := replaceAt_spec a x d'.length m hinv
-  have hlt : d'.length < a.abs.length := by rw [habs]; simp; omega
+  have hlt : d'.length < a.abs.length := by rw [habs]; simp <;> omega
   unfold Spec.Seq.replaceAt at r2 r3
   simp only [hlt, if_true] at r2 r3
   refine ⟨r8.2 (by simpa using hlt), ?_, ?_, r5, r4, r6⟩
@@ -267,14 +267,14 @@ theorem zipNext_sim (a1 a2 : Arr) (it : ArrIter) (z : ZipCursor) (m : Mem) (hi1 
   cases ht1 : z.todo1 with
   | nil =>
     have : (decide (it.index ≥ a1.size) || decide (it.index ≥ a2.size)) = true := by
-      simp [ht1] at e1; simp; omega
+      simp [ht1] at e1; simp <;> omega
     simp only [this, if_true]
     exact ⟨by triv, by triv, ⟨s1, s2, s3, s4, s5⟩, by triv⟩
   | cons x t1 =>
     cases ht2 : z.todo2 with
     | nil =>
       have : (decide (it.index ≥ a1.size) || decide (it.index ≥ a2.size)) = true := by
-        simp [ht2] at e2; simp; omega
+        simp [ht2] at e2; simp <;> omega
       simp only [this, if_true]
       exact ⟨by triv, by triv, ⟨s1, s2, s3, s4, s5⟩, by triv⟩
     | cons y t2 =>
@@ -384,7 +384,8 @@ theorem zipReplace_sim (a1 a2 : Arr) (it : ArrIter) (z : ZipCursor) (x y : Nat) 
     have : (decide (wdec it.index ≥ a1.size) || decide (wdec it.index ≥ a2.size)) = false := by
       rw [hw]; simp; omega
     have hor : ¬ (z.done1 = [] ∨ z.done2 = []) := by simp [hd, hd2ne]
-    simp only [this, Bool.false_eq_true, if_false, hor, hw]
+    simp only [this, Bool.false_eq_true, if_false, hor]
+    simp only [hw]
     have habs1 : a1.abs = (d1 ++ [y1]) ++ z.todo1 := by rw [← s1, hd1]
     have habs2 : a2.abs = (d2 ++ [y2]) ++ z.todo2 := by rw [← s2, hd2]
     obtain ⟨p1, p2, p3, p4, p5, p6⟩ := replaceAt_split a1 d1 z.todo1 y1 x m hi1 habs1
@@ -397,11 +398,164 @@ theorem zipReplace_sim (a1 a2 : Arr) (it : ArrIter) (z : ZipCursor) (x y : Nat) 
     · simp only; rw [p3, hd1, List.dropLast_concat]
     · simp only; rw [q3, hd2, List.dropLast_concat]
     · simp only; rw [hd1, List.dropLast_concat, hidx]; simp
-    · simp only; rw [hd2, List.dropLast_concat, hidx, hlen2]; simp
+    · simp only; rw [hd2, List.dropLast_concat, hidx]; simp [hlen2]
 
 theorem zipIndex_sim (a1 a2 : Arr) (it : ArrIter) (z : ZipCursor) (hs : ZSim a1 a2 it z) :
     iterIndex it = z.index := by
   unfold iterIndex ZipCursor.index
   rw [hs.2.2.1]
+
+/-! ### zip_iter_add -/
+
+/-- physical frame of a successful insertion without the allocator conjunct of `GrowFrame` -/
+def Grew (a a' : Arr) : Prop :=
+  a'.size = a.size + 1 ∧ a'.size ≤ a'.capacity ∧ a'.capacity ≤ a'.buf.length ∧
+  (a'.capacity = a.capacity ∨ (a.size = a.capacity ∧ a'.capacity = a.newCapacity ∧ a.capacity < a.newCapacity)) ∧
+  a'.grow = a.grow
+
+theorem GrowFrame.grew {a a' : Arr} {m : Mem} (g : GrowFrame a a' m) : Grew a a' := by
+  obtain ⟨g1, g2, g3, g4, g5⟩ := g
+  refine ⟨g1, g2, g3, ?_, g5⟩
+  rcases g4 with g4 | ⟨k1, k2, k3, _⟩
+  · exact Or.inl g4
+  · exact Or.inr ⟨k1, k2, k3⟩
+
+theorem Grew.inv {a a' : Arr} (h : a.Inv) (g : Grew a a') (hg : a.grow a.capacity ≤ Gen.CC_MAX_ELEMENTS) : a'.Inv := by
+  obtain ⟨h1, h2, h3, h4⟩ := h
+  obtain ⟨g1, g2, g3, g4, g5⟩ := g
+  have := newCapacity_le a h4 hg
+  refine ⟨g2, g3, ?_, ?_⟩ <;> rcases g4 with g4 | ⟨_, g4, g6⟩ <;> omega
+
+/-- `add_at` into an array that has room needs no allocation and cannot fail for `i ≤ size` -/
+theorem addAt_room (a : Arr) (x i : Nat) (m : Mem) (h1 : a.size < a.capacity) (h2 : a.capacity ≤ a.buf.length)
+    (hi : i ≤ a.size) :
+    (a.addAt x i m).1 = .ok ∧ (a.addAt x i m).2.1.abs = a.abs.insertIdx i x ∧
+    (a.addAt x i m).2.1.size = a.size + 1 ∧ Kept a (a.addAt x i m).2.1 ∧ (a.addAt x i m).2.2 = m := by
+  by_cases heq : i = a.size
+  · subst heq
+    have hl : a.size < a.buf.length := by omega
+    rw [addAt_end, add_room a x m h1]
+    have e : a.abs.insertIdx a.size x = a.abs ++ [x] := by
+      have := @List.insertIdx_length_self _ a.abs x
+      rwa [abs_length] at this
+    refine ⟨by rw [store_eq a x m hl], by rw [store_abs a x m hl, e], ?_⟩
+    rw [store_eq a x m hl]
+    exact ⟨rfl, ⟨rfl, by simp, rfl⟩, rfl⟩
+  · have hlt : i < a.size := by omega
+    have hnf : ¬ a.size ≥ a.capacity := by omega
+    have hl : a.size + 1 ≤ a.buf.length := by omega
+    rw [addAt_mid a x i m hlt]
+    simp only [hnf, if_false]
+    refine ⟨by rw [insertShift_eq a x i m hl hi], insertShift_abs a x i m hl hi, ?_⟩
+    rw [insertShift_eq a x i m hl hi]
+    exact ⟨rfl, ⟨rfl, by simp, rfl⟩, rfl⟩
+
+/-- the room-making step of `cc_array_zip_iter_add` -/
+def ensureRoom (a : Arr) (m : Mem) : Stat × Arr × Mem :=
+  if a.size = a.capacity then a.expandCapacity m else (.ok, a, m)
+
+theorem ensureRoom_spec (a : Arr) (m : Mem) (hinv : a.Inv) (hlive : 0 < m.live) :
+    (((ensureRoom a m).1 = .ok ∧ (ensureRoom a m).2.1.abs = a.abs ∧ (ensureRoom a m).2.1.size = a.size ∧
+        (ensureRoom a m).2.1.size < (ensureRoom a m).2.1.capacity ∧
+        (ensureRoom a m).2.1.capacity ≤ (ensureRoom a m).2.1.buf.length ∧
+        (ensureRoom a m).2.1.grow = a.grow ∧
+        ((ensureRoom a m).2.1.capacity = a.capacity ∨
+          (a.size = a.capacity ∧ (ensureRoom a m).2.1.capacity = a.newCapacity ∧ a.capacity < a.newCapacity))) ∨
+     ((ensureRoom a m).1 ≠ .ok ∧ (ensureRoom a m).2.1 = a)) ∧
+    (ensureRoom a m).2.2.live = m.live ∧ (ensureRoom a m).2.2.fault = m.fault := by
+  have hinv' := hinv
+  obtain ⟨h1, h2, h3, h4⟩ := hinv
+  by_cases hf : a.size = a.capacity
+  · have he : ensureRoom a m = a.expandCapacity m := by unfold ensureRoom; rw [if_pos hf]
+    rw [he]
+    by_cases hok : (a.expandCapacity m).1 = .ok
+    · obtain ⟨e1, e2, e3, e4, e5, e6, e7, e8, e9, e10⟩ := expandCapacity_ok a m hinv' hlive hok
+      exact ⟨Or.inl ⟨hok, e1, by rw [e2, hf], by omega, by omega, e3, Or.inr ⟨hf, e4, e6⟩⟩, e9, e10⟩
+    · obtain ⟨e1, e2, e3, e4⟩ := expandCapacity_err a m hok
+      exact ⟨Or.inr ⟨hok, e1⟩, e3, e4⟩
+  · have he : ensureRoom a m = (.ok, a, m) := by unfold ensureRoom; rw [if_neg hf]
+    rw [he]
+    have hlt : a.size < a.capacity := by omega
+    exact ⟨Or.inl ⟨rfl, rfl, rfl, hlt, h2, rfl, Or.inl rfl⟩, rfl, rfl⟩
+
+theorem zipAdd_eq (a1 a2 : Arr) (it : ArrIter) (x y : Nat) (m : Mem) :
+    zipAdd a1 a2 it x y m =
+      if (ensureRoom a1 m).1 != .ok then (.errAlloc, (ensureRoom a1 m).2.1, a2, it, (ensureRoom a1 m).2.2) else
+      if (ensureRoom a2 (ensureRoom a1 m).2.2).1 != .ok then
+        (.errAlloc, (ensureRoom a1 m).2.1, (ensureRoom a2 (ensureRoom a1 m).2.2).2.1, it,
+          (ensureRoom a2 (ensureRoom a1 m).2.2).2.2) else
+      (.ok, ((ensureRoom a1 m).2.1.addAt x it.index (ensureRoom a2 (ensureRoom a1 m).2.2).2.2).2.1,
+        ((ensureRoom a2 (ensureRoom a1 m).2.2).2.1.addAt y it.index
+          ((ensureRoom a1 m).2.1.addAt x it.index (ensureRoom a2 (ensureRoom a1 m).2.2).2.2).2.2).2.1,
+        { it with index := it.index + 1 },
+        ((ensureRoom a2 (ensureRoom a1 m).2.2).2.1.addAt y it.index
+          ((ensureRoom a1 m).2.1.addAt x it.index (ensureRoom a2 (ensureRoom a1 m).2.2).2.2).2.2).2.2) := rfl
+
+/-- `cc_array_zip_iter_add`: on success a pair is inserted after the pair yielded last and the cursor
+steps over it; when either array cannot make room the call reports `CC_ERR_ALLOC`, both contents
+and the cursor are unchanged (A8; the first array may have been re-allocated, which changes neither
+its content nor its size), and the ledger is balanced -/
+theorem zipAdd_sim (a1 a2 : Arr) (it : ArrIter) (z : ZipCursor) (x y : Nat) (m : Mem)
+    (hi1 : a1.Inv) (hi2 : a2.Inv) (hlive : 0 < m.live) (hs : ZSim a1 a2 it z) :
+    (((zipAdd a1 a2 it x y m).1 = .ok ∧
+        ZSim (zipAdd a1 a2 it x y m).2.1 (zipAdd a1 a2 it x y m).2.2.1 (zipAdd a1 a2 it x y m).2.2.2.1 (z.add x y).2 ∧
+        Grew a1 (zipAdd a1 a2 it x y m).2.1 ∧ Grew a2 (zipAdd a1 a2 it x y m).2.2.1) ∨
+     ((zipAdd a1 a2 it x y m).1 = .errAlloc ∧
+        (zipAdd a1 a2 it x y m).2.1.abs = a1.abs ∧ (zipAdd a1 a2 it x y m).2.1.size = a1.size ∧
+        (zipAdd a1 a2 it x y m).2.1.size ≤ (zipAdd a1 a2 it x y m).2.1.capacity ∧
+        (zipAdd a1 a2 it x y m).2.1.capacity ≤ (zipAdd a1 a2 it x y m).2.1.buf.length ∧
+        (zipAdd a1 a2 it x y m).2.1.grow = a1.grow ∧
+        ((zipAdd a1 a2 it x y m).2.1.capacity = a1.capacity ∨ (zipAdd a1 a2 it x y m).2.1.capacity = a1.newCapacity) ∧
+        (zipAdd a1 a2 it x y m).2.2.1 = a2 ∧ (zipAdd a1 a2 it x y m).2.2.2.1 = it ∧
+        (a1.size = a1.capacity ∨ a2.size = a2.capacity))) ∧
+    (zipAdd a1 a2 it x y m).2.2.2.2.live = m.live ∧ (zipAdd a1 a2 it x y m).2.2.2.2.fault = m.fault := by
+  obtain ⟨l1, l2⟩ := hs.index_le
+  obtain ⟨s1, s2, s3, s4, s5⟩ := hs
+  rw [zipAdd_eq]
+  obtain ⟨r1, rl1, rf1⟩ := ensureRoom_spec a1 m hi1 hlive
+  have hlive2 : 0 < (ensureRoom a1 m).2.2.live := by omega
+  obtain ⟨r2, rl2, rf2⟩ := ensureRoom_spec a2 (ensureRoom a1 m).2.2 hi2 hlive2
+  rcases r1 with ⟨o1, b1, c1, d1, e1, f1, g1⟩ | ⟨n1, same1⟩
+  · simp only [o1, bne_self_eq_false, Bool.false_eq_true, if_false]
+    rcases r2 with ⟨o2, b2, c2, d2, e2, f2, g2⟩ | ⟨n2, same2⟩
+    · simp only [o2, bne_self_eq_false, Bool.false_eq_true, if_false]
+      obtain ⟨p1, p2, p3, p4, p5⟩ := addAt_room (ensureRoom a1 m).2.1 x it.index
+        (ensureRoom a2 (ensureRoom a1 m).2.2).2.2 d1 e1 (by omega)
+      rw [p5]
+      obtain ⟨q1, q2, q3, q4, q5⟩ := addAt_room (ensureRoom a2 (ensureRoom a1 m).2.2).2.1 y it.index
+        (ensureRoom a2 (ensureRoom a1 m).2.2).2.2 d2 e2 (by omega)
+      obtain ⟨pk1, pk2, pk3⟩ := p4
+      obtain ⟨qk1, qk2, qk3⟩ := q4
+      refine ⟨Or.inl ⟨by triv, ⟨?_, ?_, by simp [ZipCursor.add, s3], by simp [ZipCursor.add, s4], s5⟩, ?_, ?_⟩, ?_, ?_⟩
+      · simp only [ZipCursor.add]
+        rw [p2, b1, ← s1, ← s3, insertIdx_append_length]
+      · simp only [ZipCursor.add]
+        rw [q2, b2, ← s2, ← s4, insertIdx_append_length]
+      · refine ⟨by rw [p3, c1], by omega, by omega, ?_, by rw [pk3, f1]⟩
+        rw [pk1]; exact g1
+      · refine ⟨by rw [q3, c2], by omega, by omega, ?_, by rw [qk3, f2]⟩
+        rw [qk1]; exact g2
+      · rw [q5, rl2, rl1]
+      · rw [q5, rf2, rf1]
+    · have hne : ((ensureRoom a2 (ensureRoom a1 m).2.2).1 != .ok) = true := by simpa using n2
+      simp only [hne, if_true]
+      have hfull2 : a2.size = a2.capacity := by
+        apply Decidable.byContradiction
+        intro hnf
+        apply n2
+        unfold ensureRoom; simp [hnf]
+      refine ⟨Or.inr ⟨by triv, b1, c1, by omega, e1, f1, ?_, same2, by triv, Or.inr hfull2⟩, by rw [rl2, rl1], by rw [rf2, rf1]⟩
+      rcases g1 with g1 | ⟨_, g1, _⟩
+      · exact Or.inl g1
+      · exact Or.inr g1
+  · have hne : ((ensureRoom a1 m).1 != .ok) = true := by simpa using n1
+    simp only [hne, if_true]
+    have hfull1 : a1.size = a1.capacity := by
+      apply Decidable.byContradiction
+      intro hnf
+      apply n1
+      unfold ensureRoom; simp [hnf]
+    rw [same1]
+    exact ⟨Or.inr ⟨by triv, rfl, rfl, hi1.1, hi1.2.1, rfl, Or.inl rfl, by triv, by triv, Or.inl hfull1⟩, rl1, rf1⟩
 
 end CC.Arr
